@@ -22,6 +22,95 @@ pub struct Proc {
     child: Child,
     stdin: ChildStdin,
     stdout: BufReader<ChildStdout>,
+    watch: Arc<Watch>,
+}
+
+/// Shared with the watchdog thread of a worker. A worker never waits on real time (every engine
+/// computes, the tokio engine on a paused clock), so a worker that is asleep and has consumed no
+/// CPU time for `DEADLOCK_AFTER` while a request is open is blocked for good: a deadlock in the
+/// code under test. The watchdog takes a stack with gdb (to name the place), kills the worker and
+/// leaves a note; the open request then ends as `Died` with that note as its "panic".
+#[derive(Default)]
+struct Watch {
+    busy: std::sync::atomic::AtomicBool,
+    gone: std::sync::atomic::AtomicBool,
+    hung: Mutex<Option<String>>,
+}
+
+const DEADLOCK_AFTER: Duration = Duration::from_secs(30);
+
+fn proc_cpu_and_state(pid: u32) -> Option<(u64, char)> {
+    let stat = std::fs::read_to_string(format!("/proc/{pid}/stat")).ok()?;
+    // fields after the parenthesised command name
+    let rest = &stat[stat.rfind(')')? + 2..];
+    let f: Vec<&str> = rest.split_whitespace().collect();
+    let state = f.first()?.chars().next()?;
+    let utime: u64 = f.get(11)?.parse().ok()?;
+    let stime: u64 = f.get(12)?.parse().ok()?;
+    Some((utime + stime, state))
+}
+
+/// First frames of the blocked worker that belong to the code under test.
+fn blocked_where(pid: u32) -> String {
+    let out = Command::new("gdb")
+        .args(["-p", &pid.to_string(), "-batch", "-ex", "bt 40"])
+        .stdin(Stdio::null())
+        .stderr(Stdio::null())
+        .output();
+    let Ok(out) = out else { return "unknown-location".into() };
+    let text = String::from_utf8_lossy(&out.stdout);
+    let mut frames = vec![];
+    for line in text.lines().filter(|l| l.starts_with('#')) {
+        // "#3  0x... in <sym> ()"
+        let sym = line.split(" in ").nth(1).unwrap_or("").trim_end_matches(" ()").trim();
+        // drop the hash suffix ::h0123456789abcdef
+        let sym = match sym.rfind("::h") {
+            Some(p) if sym.len() - p == 19 => &sym[..p],
+            _ => sym,
+        };
+        if sym.contains("elvis") && !sym.contains("verif::Chaos") {
+            frames.push(sym.to_string());
+        }
+        if frames.len() == 2 {
+            break;
+        }
+    }
+    if frames.is_empty() {
+        "unknown-location".into()
+    } else {
+        frames.join(" <- ")
+    }
+}
+
+fn watchdog(pid: u32, w: Arc<Watch>) {
+    use std::sync::atomic::Ordering::SeqCst;
+    let mut last_cpu = u64::MAX;
+    let mut since = Instant::now();
+    loop {
+        std::thread::sleep(Duration::from_millis(1000));
+        if w.gone.load(SeqCst) {
+            return;
+        }
+        let Some((cpu, state)) = proc_cpu_and_state(pid) else { return };
+        if !w.busy.load(SeqCst) || cpu != last_cpu || state != 'S' {
+            last_cpu = cpu;
+            since = Instant::now();
+            continue;
+        }
+        if since.elapsed() >= DEADLOCK_AFTER {
+            let place = blocked_where(pid);
+            *w.hung.lock().unwrap() = Some(place);
+            unsafe {
+                libc_kill(pid as i32, 9);
+            }
+            return;
+        }
+    }
+}
+
+extern "C" {
+    #[link_name = "kill"]
+    fn libc_kill(pid: i32, sig: i32) -> i32;
 }
 
 pub enum Reply {
@@ -51,10 +140,14 @@ impl Proc {
             .expect("spawn worker");
         let stdin = child.stdin.take().unwrap();
         let stdout = BufReader::new(child.stdout.take().unwrap());
+        let watch = Arc::new(Watch::default());
+        let (pid, w2) = (child.id(), watch.clone());
+        std::thread::spawn(move || watchdog(pid, w2));
         Proc {
             child,
             stdin,
             stdout,
+            watch,
         }
     }
 
@@ -68,11 +161,20 @@ impl Proc {
         }
         let mut begun = None;
         let mut panic = None;
+        self.watch.busy.store(true, std::sync::atomic::Ordering::SeqCst);
         loop {
             let mut buf = String::new();
             match self.stdout.read_line(&mut buf) {
                 Ok(0) | Err(_) => {
                     let _ = self.child.wait();
+                    self.watch.gone.store(true, std::sync::atomic::Ordering::SeqCst);
+                    if let Some(place) = self.watch.hung.lock().unwrap().take() {
+                        panic = Some(PanicInfo {
+                            file: "<blocked>".into(),
+                            line: 0,
+                            msg: format!("deadlock: {place}"),
+                        });
+                    }
                     return Reply::Died { begun, panic };
                 }
                 Ok(_) => {}
@@ -84,6 +186,7 @@ impl Proc {
             } else if let Some(rest) = buf.strip_prefix("P ") {
                 panic = serde_json::from_str(rest).ok();
             } else if let Some(rest) = buf.strip_prefix("R ") {
+                self.watch.busy.store(false, std::sync::atomic::Ordering::SeqCst);
                 return Reply::Done(rest.to_string());
             }
         }
@@ -99,10 +202,11 @@ impl Proc {
     }
 
     pub fn kill(mut self) {
+        self.watch.gone.store(true, std::sync::atomic::Ordering::SeqCst);
         // VERIF_GRACEFUL: let the worker see end of input and exit on its own (coverage builds
         // write their profile at exit)
         if std::env::var("VERIF_GRACEFUL").is_ok() {
-            let Proc { mut child, stdin, stdout } = self;
+            let Proc { mut child, stdin, stdout, .. } = self;
             drop(stdin);
             drop(stdout);
             let _ = child.wait();
@@ -115,6 +219,15 @@ impl Proc {
 
 fn crash_violation(panic: &Option<PanicInfo>) -> Violation {
     match panic {
+        Some(p) if p.msg.starts_with("deadlock:") => Violation::new(
+            "deadlock",
+            p.msg.trim_start_matches("deadlock:").trim(),
+            format!(
+                "the simulation blocked for good (worker asleep, no CPU time consumed for {} s, virtual time does not wait): stack inside the code under test: {}",
+                DEADLOCK_AFTER.as_secs(),
+                p.msg.trim_start_matches("deadlock:").trim()
+            ),
+        ),
         Some(p) if p.msg.starts_with("livelock:") => Violation::new(
             "livelock",
             "poll-budget",
